@@ -76,6 +76,20 @@ static void do_xxh(hctx* h, const uint8_t* d, size_t n, uint64_t seed, size_t al
     free(blk);
 }
 
+/* lengths that do not fit 32 bits: `len` zero bytes in a MAP_NORESERVE mapping (address space, almost no memory); the
+ * result must equal the reference XXH64 (the length enters the hash as a 64-bit quantity) */
+#include <sys/mman.h>
+static void do_xxh_big(hctx* h, uint64_t len, uint64_t seed) {
+    fprintf(h->out, "xxhbig len=%llu seed=%llu", (unsigned long long)len, (unsigned long long)seed); h_call(h);
+    void* m = mmap(NULL, (size_t)len + 4096, PROT_READ, MAP_PRIVATE | MAP_ANONYMOUS | MAP_NORESERVE, -1, 0);
+    if (m == MAP_FAILED) { fprintf(h->out, " | skipped=1 triv=1\n"); h->n_lines++; return; }
+    uint64_t r = carquet_xxhash64(m, (size_t)len, seed);
+    uint64_t ref = XXH64(m, (size_t)len, seed);
+    munmap(m, (size_t)len + 4096);
+    fprintf(h->out, " | r=%llu p_ref=%d\n", (unsigned long long)r, r == ref);
+    h->n_lines++; n_xxh++; n_xxh_ge32++;
+}
+
 /* ---------------------------------------------------------------- items ---- */
 
 typedef struct { char kind; int64_t i; uint64_t u; uint8_t* b; size_t nb; } item;
@@ -380,6 +394,8 @@ static void gen_bloom(hctx* h) {
         }
     }
     free(buf);
+    do_xxh_big(h, (1ull << 32) + 13, 0);
+    if (h->thorough) { do_xxh_big(h, (1ull << 32) - 33, 1); do_xxh_big(h, (1ull << 33) + 64, 2654435761ull); }
 
     /* 2. size rounding, incl. the requests whose rounding would wrap size_t */
     for (size_t r = 0; r <= 130; r++) do_create(h, r);
@@ -457,6 +473,9 @@ static int replay_bloom(hctx* h, const h_line* l) {
     if (!strcmp(l->op, "xxh")) {
         size_t n; uint8_t* d = h_unhex(h_in(l, "data"), &n);
         do_xxh(h, d, n, strtoull(h_in(l, "seed") ? h_in(l, "seed") : "0", NULL, 10), 0); free(d); return 1;
+    }
+    if (!strcmp(l->op, "xxhbig")) {
+        do_xxh_big(h, strtoull(h_in(l, "len"), NULL, 10), strtoull(h_in(l, "seed") ? h_in(l, "seed") : "0", NULL, 10)); return 1;
     }
     if (!strcmp(l->op, "bloom")) {
         size_t ni, np; item* ins = item_parse(h_in(l, "ins"), &ni); item* pr = item_parse(h_in(l, "probe"), &np);
